@@ -51,6 +51,7 @@ type Case struct {
 	CatchAll    bool   // root ends with a middleware raising the error for everything that reaches it
 	Repeat      int
 	RootCS      bool `json:",omitempty"` // Config.CaseSensitive of the root app
+	Alone       bool `json:",omitempty"` // afterwards the first sub-app that has sub-apps of its own is also served directly
 	RootUnesc   bool `json:",omitempty"` // Config.UnescapePath of the root app (requests may spell a letter of the path as %XX)
 	TopDown     bool `json:",omitempty"` // mount each sub-app into its parent before its own children are mounted into it
 }
@@ -85,6 +86,66 @@ func candidates(nodes []Node, base string, depth int, out *[]cand, all *[]string
 	}
 }
 
+// aloneCheck: a sub-app that has sub-apps of its own is, after the root application served its request, also served
+// directly (its own listener, or its Handler() inside another server): there it is the root of its own tree, and the same
+// rule picks the handler - the innermost sub-app of ITS tree whose prefix contains the path, else its own.
+func aloneCheck(c Case, r *run) string {
+	if !c.Alone {
+		return ""
+	}
+	for _, nd := range c.Tree {
+		if len(nd.Children) == 0 {
+			continue
+		}
+		var cands []cand
+		var all []string
+		candidates(nd.Children, "", 0, &cands, &all)
+		seen := map[string]bool{}
+		for _, f := range all {
+			if seen[f] {
+				return "" // shared full prefixes: C04-b territory
+			}
+			seen[f] = true
+		}
+		// a request inside the first grandchild's prefix (or the node's own /x)
+		path := fullPrefix("", nd.Children[0].Prefix) + "/x"
+		want, wantKind := nd.Name, nd.Handler
+		best, bestDepth := -1, -1
+		for _, cd := range cands {
+			lp, lf := strings.ToLower(path), strings.ToLower(cd.full)
+			if nd.CS {
+				lp, lf = path, cd.full
+			}
+			if cd.full == "" || lp == lf || strings.HasPrefix(lp, lf+"/") {
+				if s := segments(cd.full); s > best || (s == best && cd.depth > bestDepth) {
+					best, bestDepth, want, wantKind = s, cd.depth, cd.name, cd.kind
+				}
+			}
+		}
+		before := map[string]int{}
+		for k, v := range r.calls {
+			before[k] = v
+		}
+		vk.Do(r.apps[nd.Name], "GET", path)
+		var ran []string
+		for k, v := range r.calls {
+			for i := before[k]; i < v; i++ {
+				ran = append(ran, k)
+			}
+		}
+		sort.Strings(ran)
+		wantRan := want
+		if wantKind == "" {
+			wantRan = "" // default handler
+		}
+		if strings.Join(ran, ",") != wantRan {
+			return fmt.Sprintf("GET %s served directly by sub-app %s (prefix %q in the root application, which served a request first; own sub-apps %v with handler: %v): the error handlers that ran were %v, want %q", path, nd.Name, nd.Prefix, all, cands, ran, wantRan)
+		}
+		return ""
+	}
+	return ""
+}
+
 func segments(p string) int {
 	if p == "" {
 		return 0
@@ -107,13 +168,14 @@ func (c Case) raise() error {
 }
 
 type run struct {
+	apps   map[string]*fiber.App // the sub-apps by name
 	calls  map[string]int
 	status int
 	body   string
 }
 
 func build(c Case) (*fiber.App, *run) {
-	r := &run{calls: map[string]int{}}
+	r := &run{calls: map[string]int{}, apps: map[string]*fiber.App{}}
 	cfg := func(name, kind string) fiber.Config {
 		switch kind {
 		case "ok":
@@ -165,6 +227,7 @@ func build(c Case) (*fiber.App, *run) {
 			subCfg := cfg(nd.Name, nd.Handler)
 			subCfg.CaseSensitive = nd.CS
 			sub := fiber.New(subCfg)
+			r.apps[nd.Name] = sub
 			routes(sub)
 			use := func() {
 				if nd.ViaGroup {
@@ -242,6 +305,9 @@ func check(c Case) vk.Verdict {
 		sort.Strings(names)
 		outcomes[strings.Join(names, ",")]++
 		statuses = append(statuses, r.status)
+		if msg := aloneCheck(c, r); msg != "" {
+			return vk.Failf("%s", msg)
+		}
 		if r.status == 200 {
 			return vk.Verdict{Skip: true} // no error occurred (cannot happen with the generated routes, defensive)
 		}
@@ -373,6 +439,7 @@ func genCase(t *rapid.T) Case {
 	c.ErrPos = rapid.IntRange(0, c.ChainLen).Draw(t, "errpos")
 	c.CatchAll = rapid.Bool().Draw(t, "catchall") && c.ErrKind != "fallthrough"
 	c.TopDown = rapid.Bool().Draw(t, "topdown")
+	c.Alone = rapid.IntRange(0, 2).Draw(t, "alone") == 0
 	c.Repeat = 8
 	if vk.Tier() == "thorough" {
 		c.Repeat = 32
